@@ -147,6 +147,14 @@ def fields():
             tail = Z32 + b'\0' * 8 + u16(el) + bytes(el) + b'\4\3' + u16(sl) + b'\x99' * sl
             return ('sct', u16(1 + len(tail)) + bytes([v]) + tail, 'ok 0 (SCTE %d %s 0 %s (DSig (some (P 4 3)) %s))' % (v, S(3, 32), S(45, el), S(45 + el + 4, sl)))
         f.append(('ct_version/ext%d_sig%d' % (el, sl), 256, sctv))
+    for cl in (0, 32, 33, 255):
+        f.append(('dtls_hello_verify_version/cookie%d' % cl, 65536, lambda v, cl=cl: ('dtls_hs', bytes([3]) + (3 + cl).to_bytes(3, 'big') + b'\0\0' + b'\0\0\0' + (3 + cl).to_bytes(3, 'big') + u16(v) + bytes([cl]) + b'c' * cl,
+                  'ok 0 (M 0 (Hs 3 %d 0 0 %d (HelloVerifyRequest %d %s)))' % (3 + cl, 3 + cl, v, S(15, cl)))))
+        def dch(v, cl=cl):
+            body = u16(v) + Z32 + b'\0' + bytes([cl]) + b'c' * cl + b'\0\2\0\x2f' + b'\1\0'
+            return ('dtls_hs', bytes([1]) + len(body).to_bytes(3, 'big') + b'\0\0' + b'\0\0\0' + len(body).to_bytes(3, 'big') + body,
+                    'ok 0 (M 0 (Hs 1 %d 0 0 %d (ClientHello %d %s none %s [47] [0] none)))' % (len(body), len(body), v, S(14, 32), S(48, cl)))
+        f.append(('dtls_client_hello_version/cookie%d' % cl, 65536, dch))
     return f
 
 
